@@ -44,6 +44,9 @@ type Thread struct {
 	held    map[string]int // lock key -> mode (1 read, 2 write)
 	panicked *goPanic
 	inPar   bool
+	curOp   string
+	pendVis bool // parked immediately before a visible operation (or blocked in one)
+	lastFree interface{}
 }
 
 const maxSteps = 2_000_000
